@@ -399,6 +399,12 @@ def at_limit_family(tier):
             out.append([(env, "p" * npl + cons)])
             if cons in ("$A", "~", "'\\x'"):
                 out.append([(env, "p" * (npl - 3) + cons + "xyz")])
+    # constructs that straddle the limit in the OUTPUT while the input is shorter (a tilde in front grows the text by 6)
+    for cons in ("'\\x'", "'\\''", "\\n", "\\\\", "$A", "~", "%version()", "${E}", "\"\\t\""):
+        for T in span:
+            npl = T - 7 - len(cons)
+            out.append([(env, "~" + "p" * npl + cons)])
+            out.append([(env, "~" + "p" * npl + cons + "zz")])
     # a value much longer than the room that is left, and expansion inside a call argument reaching the limit
     big = [("HOME", "h" * 9000), ("A", "a" * 20479), ("B1", "b" * 20470)]
     out.append([(big, "~~~")])
